@@ -186,7 +186,13 @@ class WorldGen(object):
         store_docs = [u for u in self.doc_urls if rng.random() < k.store_rate]
         # the caller may spell a store key with a trailing '#': it designates the same document
         store_keys = dict((u, u + "#" if rng.random() < 0.4 else u) for u in store_docs)
-        instances = [self.instance(k.inst_depth, top=True) for _ in range(k.ninstances)]
+        instances = [self.instance(k.inst_depth, top=True) if rng.random() < 0.5
+                     else self.directed(root, docs, root, k.inst_depth + 2) for _ in range(k.ninstances)]
+        if rng.random() < 0.5:
+            # a twin of an earlier instance that differs only in JSON *type* where Python calls the values equal
+            # (1 / 1.0 / true, 0 / 0.0 / false): whatever a validator remembers about one must not leak to the other
+            j = rng.randrange(len(instances))
+            instances.append(self.twin(instances[j]))
         if self.formats:
             # strings that make the raising checkers raise, at the places the schemas look at
             zrich = [{"a": "z", "zz": ["z", 5], "b": {"zz": "Zz", "a": []}},
@@ -561,6 +567,102 @@ class WorldGen(object):
         return out
 
     # ------------------------------------------------------------ instances
+    # ------------------------------------------------------------ schema-directed instances
+    def _target(self, ref, docs, root):
+        """The schema a generated reference string designates (generation-side lookup; None if unknown)."""
+        for string, url in self.reflog:
+            if string == ref:
+                doc = root if url == self.root_url else docs.get(url)
+                frag = ref.split("#", 1)[1] if "#" in ref else ""
+                node = doc
+                for part in [p for p in frag.split("/") if p]:
+                    if isinstance(node, dict) and part in node:
+                        node = node[part]
+                    else:
+                        return None
+                return node
+        return None
+
+    def directed(self, schema, docs, root, depth):
+        """An instance shaped after the schema: it reaches the leaves, satisfying or violating them at random."""
+        rng = self.rng
+        if depth <= 0 or not isinstance(schema, dict):
+            return rng.choice(ZOO)
+        if "$ref" in schema:
+            t = self._target(schema["$ref"], docs, root)
+            return self.directed(t, docs, root, depth - 1) if t is not None else rng.choice(ZOO)
+        for comb in ("allOf", "anyOf", "oneOf", "extends"):
+            if isinstance(schema.get(comb), list) and schema[comb] and rng.random() < 0.6:
+                return self.directed(rng.choice(schema[comb]), docs, root, depth)
+        if isinstance(schema.get("extends"), dict) and rng.random() < 0.5:
+            return self.directed(schema["extends"], docs, root, depth)
+        objish = [k for k in ("properties", "patternProperties", "additionalProperties", "dependencies",
+                              "propertyNames", "required") if k in schema]
+        arrish = [k for k in ("items", "additionalItems", "contains", "minItems", "uniqueItems") if k in schema]
+        kind = None
+        if objish and arrish:
+            kind = rng.choice(["o", "a"])
+        elif objish:
+            kind = "o"
+        elif arrish:
+            kind = "a"
+        if kind == "o":
+            out = {}
+            for key, sub in (schema.get("properties") or {}).items():
+                if rng.random() < 0.8:
+                    out[key] = self.directed(sub, docs, root, depth - 1)
+            for pat, sub in (schema.get("patternProperties") or {}).items():
+                key = {"^a": "a", "^[bc]$": rng.choice(["b", "c"]), ".": "zz", "z": "zz"}.get(pat, "a")
+                out.setdefault(key, self.directed(sub, docs, root, depth - 1))
+            ap = schema.get("additionalProperties")
+            if isinstance(ap, dict):
+                out.setdefault(rng.choice(["zz", "c", "b"]), self.directed(ap, docs, root, depth - 1))
+            elif rng.random() < 0.3:
+                out.setdefault("zz", rng.choice(ZOO))
+            for key in (schema.get("required") if isinstance(schema.get("required"), list) else []):
+                if rng.random() < 0.6:
+                    out.setdefault(key, rng.choice(ZOO))
+            return out
+        if kind == "a":
+            items = schema.get("items")
+            if isinstance(items, list):
+                out = [self.directed(sub, docs, root, depth - 1) for sub in items]
+                if rng.random() < 0.5:
+                    ai = schema.get("additionalItems")
+                    out.append(self.directed(ai, docs, root, depth - 1) if isinstance(ai, dict) else rng.choice(ZOO))
+                return out
+            sub = items if isinstance(items, dict) else schema.get("contains")
+            return [self.directed(sub, docs, root, depth - 1) if isinstance(sub, dict) else rng.choice(ZOO)
+                    for _ in range(rng.randint(1, 3))]
+        # leaf: satisfy or violate
+        t = schema.get("type")
+        if isinstance(t, list):
+            t = rng.choice([x for x in t if isinstance(x, str)] or [None])
+        by_type = {"integer": [0, 1, 2, 7, -3, 1.0, 2.0], "number": [0, 1.5, 2, -3, 1.0], "string": ["", "ab", "abc", "z", "Zz"],
+                   "boolean": [True, False], "null": [None], "array": [[], [1]], "object": [{}, {"a": 1}],
+                   "even": [2, 3, 4], "nonempty": ["", "a", []]}
+        if "enum" in schema and schema["enum"] and rng.random() < 0.5:
+            return rng.choice(schema["enum"])
+        if "const" in schema and rng.random() < 0.5:
+            return schema["const"]
+        if t in by_type and rng.random() < 0.75:
+            return rng.choice(by_type[t])
+        return rng.choice(ZOO)
+
+    def twin(self, v):
+        rng = self.rng
+        if isinstance(v, bool):
+            return rng.choice([v, int(v), float(v)])
+        if isinstance(v, int) and abs(v) < 2 ** 53:
+            return rng.choice([float(v), float(v), v] + ([bool(v)] if v in (0, 1) else []))
+        if isinstance(v, float) and v.is_integer():
+            return rng.choice([int(v), int(v), v])
+        if isinstance(v, list):
+            return [self.twin(x) for x in v]
+        if isinstance(v, dict):
+            return dict((k, self.twin(x)) for k, x in v.items())
+        return v
+
     def instance(self, depth, top=False):
         rng = self.rng
         r = rng.random()
